@@ -115,11 +115,11 @@ pub fn generator(g: &str, x: f64, par: &Params) -> Option<f64> {
         "u" => 1.0 / ((1.0 - x) * (1.0 + x)).sqrt(),
         "as" => x.asin(),
         "ac" => x.acos(),
-        "w" => 1.0 / (1.0 + x * x),
+        "w" => if x.abs() > 1.0 { let r = 1.0 / x; r * r / (1.0 + r * r) } else { 1.0 / (1.0 + x * x) },
         "at" => x.atan(),
-        "v" => 1.0 / (1.0 + x * x).sqrt(),
+        "v" => 1.0 / x.hypot(1.0),
         "ash" => x.asinh(),
-        "y" => 1.0 / ((x - 1.0) * (x + 1.0)).sqrt(),
+        "y" => if x > 2.0 { let r = 1.0 / x; r / ((1.0 - r) * (1.0 + r)).sqrt() } else { 1.0 / ((x - 1.0) * (x + 1.0)).sqrt() },
         "ach" => x.acosh(),
         "z" => 1.0 / ((1.0 - x) * (1.0 + x)),
         "ath" => x.atanh(),
@@ -287,6 +287,8 @@ pub struct SweepReport {
     pub violations: Vec<Value>,
     pub n_viol: u64,
     pub samples: Vec<Value>,
+    /// recorded findings (KNOWN_FINDINGS): key -> count
+    pub known: BTreeMap<String, u64>,
 }
 
 pub fn rand_in(rng: &mut Rng, dom: &[(f64, f64)]) -> f64 {
@@ -395,7 +397,7 @@ impl<'a> TypeFn for Sweep<'a> {
 
 pub fn report_json(r: &SweepReport) -> Value {
     json!({"evaluations": r.evaluations, "parts_compared": r.parts_compared, "per_case": r.per_case,
-           "distinct_cases": r.per_case.len(), "worst_ratio": r.worst, "n_violations": r.n_viol,
+           "distinct_cases": r.per_case.len(), "worst_ratio": r.worst, "known": r.known, "n_violations": r.n_viol,
            "violations": r.violations, "samples": r.samples})
 }
 
